@@ -5,7 +5,8 @@ import PyxModel.Interp.Model
 /-! driver commands of property C15:
     `(calls <fuel> <ctx> (enums (NAME (id "enumerator" prev)…)…) (consts (NAME TYPE "text")…) <state> <entry>…)`
     with entries `(fn NAME kwargs)`, `(brg EE NAME kwargs)`, `(cop CLS NAME kwargs)`, `(iop (i CLS idx) NAME kwargs)`,
-    `(dattr (i CLS idx) NAME)`, `(set (i CLS idx) ATTR value)` (an attribute written from Python), `(enum NAME ENUMERATOR)`, `(const NAME)` — the invocations the harness makes from
+    `(dattr (i CLS idx) NAME)`, `(set (i CLS idx) ATTR value)` (an attribute written from Python), `(relate (i…) (i…) REL PHRASE)` / `(unrelate …)`
+    (xtuml.relate / xtuml.unrelate called from Python), `(enum NAME ENUMERATOR)`, `(const NAME)` — the invocations the harness makes from
     Python, in order, on one evolving population.
     → `(ok (<value>…) <state>)`, `(error "…")` or `(timeout)`.
     Enumerations are given as their S_ENUM rows in ROW order and numbered by the model of `mk_enum`; constants as
@@ -54,6 +55,14 @@ def runEntry (C : Ctx) (rec : Oracle) : Sexp → Option (M Val)
     let i' ← decodeInst i
     let v' ← decodeVal v
     pure (do M.modifySt (setAttr C i' a v'); pure Val.none)
+  | .list [.sym "relate", x, y, .str rel, .str ph] => do
+    let x' ← decodeInst x
+    let y' ← decodeInst y
+    pure (do M.modifySt (relate C x' y' rel ph); pure Val.none)
+  | .list [.sym "unrelate", x, y, .str rel, .str ph] => do
+    let x' ← decodeInst x
+    let y' ← decodeInst y
+    pure (do M.modifySt (unrelate C x' y' rel ph); pure Val.none)
   | .list [.sym "enum", .str ns, .str n] => some (evalStep C rec (.enumOrConst ns n))
   | .list [.sym "const", .str n] => some (lookupVar C n)
   | _ => none
